@@ -109,6 +109,18 @@ def model_class():
             if self.fault_at == k:
                 self.fault_at = None
                 raise RuntimeError("injected")
+            if self.variant % 2 == 1 and k == 4:
+                # odd model variants fail once in every replication; their
+                # simulator runs under LOG_AND_CONTINUE (set once, by the
+                # experiment, before the first initialize)
+                raise RuntimeError("recurring fault of the model")
+
+        def late_setup(self):
+            """registered with add_initial_method: part of every
+            replication's set-up"""
+            self.hook("late_setup")
+            self.simulator.schedule_event_rel(self.T(0.25), self, "special",
+                                              5)
 
         def special(self):
             self.hook("special")
@@ -264,6 +276,10 @@ def run_case(case):
         for label in ("reference", "subject"):
             sim = simc("s")
             m = QModel(sim, T, variant)
+            sim.add_initial_method(m, "late_setup")
+            if variant % 2 == 1:
+                from pydsol.core.simulator import ErrorStrategy
+                sim.set_error_strategy(ErrorStrategy.LOG_AND_CONTINUE)
             rec = Rec()
             notes = []
             if label == "subject":
